@@ -630,9 +630,11 @@ func c04Transport(r *R) {
 			continue
 		}
 		rejected := pt.Has("-"+e+"==nil") && pt.Has("-ErrPause=="+e)
+		recorded := pt.Count(r.p.Is("(*transport/graphsync.dtChannel).gsDataRequestRcvd"))
 		if rejected {
 			nT++
 			r.c.Check(pt.Count(validate) == 0 && pt.Count(terminate) >= 1, "C04.9", fmt.Sprintf("reject-path#%d", nT), r.p.Pos(fn.Pos()), "rejected request terminated, not validated", "a rejected incoming graphsync request is validated or not terminated: "+pt.Describe())
+			r.c.Check(recorded == 0, "C04.9", fmt.Sprintf("reject-path#%d/not-recorded", nT), r.p.Pos(fn.Pos()), "a rejected request is not recorded against the channel", "a rejected incoming graphsync request is recorded as the channel's request (mapping and current request id): its later callbacks become channel events and pause/resume/close target it: "+pt.Describe())
 		}
 		if pt.Count(validate) > 0 {
 			nV++
